@@ -29,6 +29,9 @@ CHECKS = {
  'C01': dict(cat='proof', tech='deductive: deserialize(serialize(v)) == norm(v) as postconditions on the real codec pairs; type constructors proved parametrically in an uninterpreted element codec (sizes unrolled to 3); bounded stand-ins for timestamp/decimal/inet and nested real types',
              text='Scalars are proved for all values and all protocol versions; list/set/map/tuple/UDT/vector are proved for any element codec satisfying the codec contract, all versions, None elements and empty collections, with collection size/arity unrolled to 3 (stated bound); nesting follows by structural induction over those obligations. Library-backed types (timestamp, decimal, inet) are bounded stand-ins, labelled.',
              ref='DESIGN.md §4 C01'),
+ 'C08': dict(cat='proof', tech='deductive: bit-vector (low-64) symbolic execution of the real _murmur3/rotl64/fmix against MurmurHash.hash3_x64_128 transcribed from Cassandra, loop invariant over an uninterpreted fold of the round function; integer proofs for truncate_int64, token normalisation and the MD5 token; bounded end-to-end stand-in incl. body_and_tail',
+             text='murmur3 is proved equal to Cassandra\'s hash for any number of blocks (inductive invariant) and every tail length (unrolled, complete), in low-64 mode (A-BITS); MD5/RandomPartitioner token proved over an arbitrary digest. struct-based block splitting (body_and_tail) is assumed and probed by a bounded end-to-end stand-in.',
+             ref='DESIGN.md §4 C08'),
 }
 
 NA_REASON = {}
